@@ -13,7 +13,7 @@ CTYPE = {"i1": "int8_t", "i2": "int16_t", "i4": "int32_t", "i8": "int64_t", "u1"
          "f4": "float", "f8": "double"}
 DTYPE = {"N": "nm::None", "i4": "nm::int32", "i8": "nm::int64", "f4": "nm::float32", "f8": "nm::float64", "u8": "nm::uint64"}
 DTYPE_T = {"N": "nm::none_t", "i4": "nm::dtype::int32_t", "i8": "nm::dtype::int64_t", "f4": "nm::dtype::float32_t", "f8": "nm::dtype::float64_t"}
-AK = {"I": "AxI", "L": "AxL", "N": "AxN", "C": "AxC"}   # C = compile-time int axis (meta::ct_v<k>, k in -3..2)
+AK = {"I": "AxI", "L": "AxL", "N": "AxN", "C": "AxC", "S": "AxS"}   # S = list in a static_vector<int,4> that is not full, fixed-dim-3 source   # C = compile-time int axis (meta::ct_v<k>, k in -3..2)
 KK = {"T": "KT", "F": "KF", "R": "KR"}
 IK = {"N": "IN", "Y": "IY"}
 
@@ -96,6 +96,9 @@ for fam, op, T, dt, hdr in (("cumsum", "add", "i4", "N", "nmtools/array/view/cum
 for op, T, dt, i, k in (("add", "i4", "N", "N", "F"), ("add", "i4", "i8", "Y", "T"), ("add", "f8", "N", "N", "R"), ("multiply", "i4", "N", "Y", "F"),
                         ("maximum", "i4", "N", "N", "T"), ("minimum", "f8", "f8", "Y", "F")):
     add_reduce("ct", op, op, T, "C", dt, i, k, "view::reduce_%s(a, axis, %s, initial, keepdims)" % (op, DTYPE[dt]), functor(op, dt), H % op, op, DATA[op])
+for op, T, dt, i, k in (("add", "i4", "N", "N", "F"), ("add", "i4", "N", "Y", "T"), ("maximum", "i4", "N", "Y", "F"), ("multiply", "f8", "N", "N", "R")):
+    add_reduce("ct", op, op, T, "S", dt, i, k, "view::reduce_%s(a, axis, %s, initial, keepdims)" % (op, DTYPE[dt]), functor(op, dt), H % op, op, DATA[op])
+add_reduce("ct", "sum", "add", "i4", "S", "N", "N", "F", "view::sum(a, axis, nm::None, initial, keepdims)", functor("add", "N"), "nmtools/array/view/sum.hpp", "add", "labels", prefix="wr")
 add_reduce("ct", "sum", "add", "i4", "C", "N", "N", "F", "view::sum(a, axis, nm::None, initial, keepdims)", functor("add", "N"), "nmtools/array/view/sum.hpp", "add", "labels", prefix="wr")
 add_reduce("ct", "prod", "multiply", "i4", "C", "f8", "N", "T", "view::prod(a, axis, nm::float64, initial, keepdims)", functor("multiply", "f8"), "nmtools/array/view/prod.hpp", "multiply", "pm12", prefix="wr")
 for fam, op, T, dt, hdr in (("cumsum", "add", "i4", "N", "nmtools/array/view/cumsum.hpp"), ("cumprod", "multiply", "i4", "N", "nmtools/array/view/cumprod.hpp"),
